@@ -95,7 +95,7 @@ def make_driver(rp):
     call = rp['cxx']
     for i in range(len(names), 0, -1):
         call = call.replace('$%d' % i, names[i - 1])
-    pre = '%s(%s)' % (rp['pre'], ', '.join(olds)) if rp.get('pre') else 'true'
+    pre = '%s(%s)' % (rp['pre'], ', '.join(olds + [str(c) for c in rp.get('pre_consts', [])])) if rp.get('pre') else 'true'
     retvoid = rp['ret'][0] == 'void'
     retref = rp['ret'][1] == 'lref'
     news = [n for n in names if n.startswith('obj_')]
